@@ -1,0 +1,45 @@
+//go:build verif
+
+package storage
+
+// Contracts checked by /verif/gocv (comment-only file; see /verif/DESIGN.md §3).
+
+// Day-based lifecycle due times round up to the next midnight UTC, whatever location the timestamp carries.
+//@ func lifecycleNextMidnightUTC
+//@ ensures[C25:next-midnight-utc] result.Equal(specNextMidnightUTC(t)) && result.After(t) && !result.After(t.Add(specDay))
+
+//@ func LifecycleExpirationDueTime
+//@ mode nosafety
+//@ requires rule != nil
+//@ ensures[C25:expiration-due] (rule.Expiration == nil ==> result == nil) &&
+//@     (rule.Expiration != nil && rule.Expiration.Date != nil ==> result != nil && result.Equal(*rule.Expiration.Date)) &&
+//@     (rule.Expiration != nil && rule.Expiration.Date == nil && rule.Expiration.Days != nil ==>
+//@         result != nil && result.Equal(specDueAfterDays(objectCreated, *rule.Expiration.Days))) &&
+//@     (rule.Expiration != nil && rule.Expiration.Date == nil && rule.Expiration.Days == nil ==> result == nil)
+
+//@ func LifecycleTransitionDueTime
+//@ mode nosafety
+//@ requires transition != nil
+//@ ensures[C25:transition-due] (transition.Date != nil ==> result != nil && result.Equal(*transition.Date)) &&
+//@     (transition.Date == nil && transition.Days != nil ==> result != nil && result.Equal(specDueAfterDays(objectCreated, *transition.Days))) &&
+//@     (transition.Date == nil && transition.Days == nil ==> result == nil)
+
+//@ func LifecycleAbortDueTime
+//@ mode nosafety
+//@ requires rule != nil
+//@ ensures[C25:abort-due] (rule.AbortIncompleteMultipartUpload == nil || rule.AbortIncompleteMultipartUpload.DaysAfterInitiation == nil ==> result == nil) &&
+//@     (rule.AbortIncompleteMultipartUpload != nil && rule.AbortIncompleteMultipartUpload.DaysAfterInitiation != nil ==>
+//@         result != nil && result.Equal(specDueAfterDays(uploadInitiated, *rule.AbortIncompleteMultipartUpload.DaysAfterInitiation)))
+
+//@ func LifecycleNoncurrentExpirationDueTime
+//@ mode nosafety
+//@ requires rule != nil
+//@ ensures[C25:noncurrent-expiration-due] (rule.NoncurrentVersionExpiration == nil || rule.NoncurrentVersionExpiration.NoncurrentDays == nil ==> result == nil) &&
+//@     (rule.NoncurrentVersionExpiration != nil && rule.NoncurrentVersionExpiration.NoncurrentDays != nil ==>
+//@         result != nil && result.Equal(specDueAfterDays(versionLastModified, *rule.NoncurrentVersionExpiration.NoncurrentDays)))
+
+//@ func LifecycleNoncurrentTransitionDueTime
+//@ mode nosafety
+//@ requires transition != nil
+//@ ensures[C25:noncurrent-transition-due] (transition.NoncurrentDays == nil ==> result == nil) &&
+//@     (transition.NoncurrentDays != nil ==> result != nil && result.Equal(specDueAfterDays(versionLastModified, *transition.NoncurrentDays)))
